@@ -93,13 +93,13 @@ def _templates_everywhere(e) -> bool:
 QV = [M.TEXT, M.CALC, M.BGROUP, M.EGROUP, M.BREPEAT, M.EREPEAT, M.SELECT]
 
 
-def c04_seq3(k0: int, k1: int, i2: int, l0: int, l1: int) -> bool:
+def c04_seq3(k0: int, k1: int, i2: int, l0: int) -> bool:
     """
     vpre: 0 <= i2 <= 6
-    vpre: 33 <= l0 <= 126 and l0 != 36 and 33 <= l1 <= 126 and l1 != 36
+    vpre: 33 <= l0 <= 126 and l0 != 36
     vpost: _ == True
     """
-    return seq_shape_ok([k0, k1, QV[i2]], S(l0, l1))
+    return seq_shape_ok([k0, k1, QV[i2]], S(l0, 66))
 
 
 specialise(
@@ -111,19 +111,19 @@ specialise(
     timeout=300,
     kernel=K,
     shims=("S1", "S2", "S3", "S4"),
-    symbolic="third row kind over {text, calculate, begin/end group, begin/end repeat, select_one} and a 2-character label tracer; first two row kinds fixed per instance",
+    symbolic="third row kind over {text, calculate, begin/end group, begin/end repeat, select_one} and a label tracer with one symbolic character; first two row kinds fixed per instance",
     bounds="3 survey rows: all 343 sequences over the 7 structural/question kinds",
     weight=40,
 )
 
 
-def c04_noise(k0: int, n1: int, k2: int, l0: int, l1: int) -> bool:
+def c04_noise(k0: int, n1: int, k2: int, l0: int) -> bool:
     """
     vpre: 0 <= k0 <= 9 and 0 <= k2 <= 9
-    vpre: 33 <= l0 <= 126 and l0 != 36 and 33 <= l1 <= 126 and l1 != 36
+    vpre: 33 <= l0 <= 126 and l0 != 36
     vpost: _ == True
     """
-    return seq_shape_ok([k0, n1, k2], S(l0, l1))
+    return seq_shape_ok([k0, n1, k2], S(l0, 66))
 
 
 specialise(
@@ -134,19 +134,19 @@ specialise(
     timeout=300,
     kernel=K,
     shims=("S1", "S2", "S3", "S4"),
-    symbolic="third row kind over the 10-kind vocabulary and a 2-character label tracer; the middle row is a blank / disabled / comment row (fixed per instance)",
+    symbolic="third row kind over the 10-kind vocabulary and a label tracer with one symbolic character; the middle row is a blank / disabled / comment row (fixed per instance)",
     bounds="3 survey rows with a noise row in the middle",
     weight=40,
 )
 
 
-def c04_seq3full(k0: int, k1: int, k2: int, l0: int, l1: int) -> bool:
+def c04_seq3full(k0: int, k1: int, k2: int, l0: int) -> bool:
     """
     vpre: 0 <= k2 <= 9
-    vpre: 33 <= l0 <= 126 and l0 != 36 and 33 <= l1 <= 126 and l1 != 36
+    vpre: 33 <= l0 <= 126 and l0 != 36
     vpost: _ == True
     """
-    return seq_shape_ok([k0, k1, k2], S(l0, l1))
+    return seq_shape_ok([k0, k1, k2], S(l0, 66))
 
 
 specialise(
@@ -159,7 +159,7 @@ specialise(
     timeout=400,
     kernel=K,
     shims=("S1", "S2", "S3", "S4"),
-    symbolic="third row kind over the 10-kind vocabulary (text, calculate, begin/end group, begin/end repeat, blank, select_one, disabled, comment) and a 2-character label tracer",
+    symbolic="third row kind over the 10-kind vocabulary (text, calculate, begin/end group, begin/end repeat, blank, select_one, disabled, comment) and a label tracer with one symbolic character",
     bounds="3 survey rows: all 1000 kind sequences",
     weight=50,
 )
@@ -193,12 +193,12 @@ specialise(
 import itertools as _it  # noqa: E402
 
 
-def c04_chain(chain: str, sib: bool, l0: int, l1: int) -> bool:
+def c04_chain(chain: str, sib: bool, l0: int) -> bool:
     """
-    vpre: 33 <= l0 <= 126 and l0 != 36 and 33 <= l1 <= 126 and l1 != 36
+    vpre: 33 <= l0 <= 126 and l0 != 36
     vpost: _ == True
     """
-    lab = S(l0, l1)
+    lab = S(l0, 66)
     rows = []
     for i, k in enumerate(chain):
         rows.append({"type": "begin " + ("repeat" if k == "r" else "group"), "name": f"s{i}", "label": lab})
@@ -268,7 +268,7 @@ specialise(
     timeout=400,
     kernel=K,
     shims=("S1", "S2", "S3", "S4"),
-    symbolic="a 2-character label tracer on every row; presence of a sibling question after the innermost section (boolean)",
+    symbolic="a label tracer with one symbolic character on every row; presence of a sibling question after the innermost section (boolean)",
     bounds="nesting chain of 2-3 sections fixed per instance (all 12 group/repeat chains) around one question",
     weight=50,
 )
